@@ -1,5 +1,6 @@
-//! `seq run FILE [--flavour sync|unsync]` — executes a case stream on the real arena(s) and prints
-//! one observation line per input line.
+//! `seq run FILE [--flavour sync|unsync] [--backend vec|anon|file] [--unify 0|1]` — executes a case
+//! stream on the real arena(s) and prints one observation line per input line (the options override
+//! the corresponding key of every `cfg` line; `--flavour` also that of every `reopen` line).
 //!
 //! `seq gen --seed S --cases N --profile P --out PREFIX [--maxops K]` — generates N cases while
 //! executing them (the generator looks at the live handles / the arena to pick interesting
@@ -15,7 +16,7 @@ use rarena_verif_harness::*;
 
 fn usage() -> ! {
   eprintln!(
-    "usage: seq run FILE [--flavour sync|unsync]\n       seq gen --seed S --cases N --profile mix|boundary|rewind|readers|trunc|buf --out PREFIX [--maxops K]"
+    "usage: seq run FILE [--flavour sync|unsync] [--backend vec|anon|file] [--unify 0|1]\n       seq gen --seed S --cases N --profile mix|boundary|rewind|readers|trunc|buf|file|badfile --out PREFIX [--maxops K]"
   );
   std::process::exit(2)
 }
@@ -37,6 +38,7 @@ fn main() {
 
 fn run(args: &[String]) {
   let (mut file, mut force) = (None, None);
+  let (mut backend, mut unify) = (None, None);
   let mut i = 0;
   while i < args.len() {
     match args[i].as_str() {
@@ -44,6 +46,21 @@ fn run(args: &[String]) {
         force = match args.get(i + 1).map(|s| s.as_str()) {
           Some("sync") => Some(true),
           Some("unsync") => Some(false),
+          _ => usage(),
+        };
+        i += 1;
+      }
+      "--backend" => {
+        backend = match args.get(i + 1).and_then(|s| BACKENDS.iter().position(|b| b == s)) {
+          Some(b) => Some(b as u8),
+          None => usage(),
+        };
+        i += 1;
+      }
+      "--unify" => {
+        unify = match args.get(i + 1).map(|s| s.as_str()) {
+          Some("0") => Some(false),
+          Some("1") => Some(true),
           _ => usage(),
         };
         i += 1;
@@ -69,7 +86,8 @@ fn run(args: &[String]) {
       drop(case.take()); // tear the previous case down first
       case_no += 1;
       ctx = line.to_string();
-      let (c, ans) = open_case(line, force, tmp.path(), case_no);
+      let ov = Overrides { sync: force, backend, unify };
+      let (c, ans) = open_session(line, &ov, tmp.path(), case_no);
       case = c;
       ans
     } else {
@@ -97,10 +115,16 @@ enum Profile {
   Readers,
   Trunc,
   Buf,
+  /// PROTOCOL_FILE.md: close / reopen cuts in a mix history
+  File,
+  /// PROTOCOL_FILE.md: damaged files
+  BadFile,
 }
 
 #[derive(Default)]
 struct Stats {
+  /// `reopen`: "<MODE>:<result kind>" (file profiles only)
+  reopen: BTreeMap<String, u64>,
   cases: u64,
   lines: u64,
   ops: BTreeMap<String, u64>,
@@ -157,6 +181,8 @@ struct Gen {
   left: usize,
   /// `al=` of the last observation
   al: u64,
+  /// the configuration of the running case (file profiles: parameters of `reopen`)
+  cfg: Option<Cfg>,
 }
 
 impl Gen {
@@ -173,7 +199,7 @@ impl Gen {
     watchdog_begin(&self.cfg_line, &line);
     let ans = if is_cfg {
       self.case = None;
-      let (c, ans) = open_case(&line, None, self.tmp.path(), self.st.cases);
+      let (c, ans) = open_session(&line, &Overrides::default(), self.tmp.path(), self.st.cases);
       self.case = c;
       ans
     } else {
@@ -203,6 +229,10 @@ impl Gen {
       } else if rk == "InsufficientSpace" {
         self.st.alloc_insufficient += 1;
       }
+    }
+    if op == "reopen" {
+      let mode = line.split(' ').nth(1).unwrap_or("?");
+      *self.st.reopen.entry(format!("{mode}:{rk}")).or_default() += 1;
     }
     *self.st.ops.entry(op).or_default() += 1;
     *self.st.results.entry(rk).or_default() += 1;
@@ -251,6 +281,9 @@ impl Gen {
       retries: r.pick(&[1, 2, 5]),
       magic: r.below(65536) as u16,
     };
+    if matches!(p, Profile::File | Profile::BadFile) {
+      cfg.backend = 2;
+    }
     let prefix = cfg.prefix();
     let base: u32 = if p == Profile::Buf {
       r.pick(&[64, 96, 128, 200, 256])
@@ -297,6 +330,7 @@ impl Gen {
       *self.st.cfg.entry(format!("{k}={v}")).or_default() += 1;
     }
     self.cfg_line = cfg.line();
+    self.cfg = Some(cfg);
     self.next_h = 0;
     self.next_c = 1;
     self.al = 0;
@@ -939,6 +973,253 @@ impl Gen {
     }
   }
 
+  // ---- file profiles (PROTOCOL_FILE.md) ------------------------------------------------------
+
+  /// `detach` for about half of the live handles (their data must survive), `drop` for the rest,
+  /// then `close`
+  fn close_all(&mut self) {
+    for h in self.live() {
+      let op = if self.rng.chance(50) { "detach" } else { "drop" };
+      self.emit(format!("{op} {}", h.id));
+    }
+    self.emit("close".to_string());
+  }
+
+  /// One `reopen` line with the identification of the cfg line unless overridden; random flavour.
+  /// `cap`: `same`, `none` or a number. Returns the answer.
+  fn reopen_line(&mut self, mode: &str, cap: &str, magic: Option<u16>, freelist: Option<u8>, create: bool) -> String {
+    let c = self.cfg.clone().expect("cfg");
+    let flavour = if self.rng.chance(50) { "sync" } else { "unsync" };
+    self.emit(format!(
+      "reopen {mode} cap={cap} magic={} freelist={} create={} flavour={flavour} reserved={} minseg={}",
+      magic.unwrap_or(c.magic),
+      FREELISTS[freelist.unwrap_or(c.freelist) as usize],
+      create as u8,
+      c.reserved,
+      c.minseg
+    ))
+  }
+
+  /// cap same 50 % / none 25 % / larger (cap + 1..4096) 25 %
+  fn pick_cap(&mut self) -> String {
+    let cap = self.cfg.as_ref().map(|c| c.cap as u64).unwrap_or(0);
+    match self.rng.weighted(&[50, 25, 25]) {
+      0 => "same".to_string(),
+      1 => "none".to_string(),
+      _ => (cap + self.rng.range(1, 4096)).to_string(),
+    }
+  }
+
+  /// A correct `reopen` (random cap, create 30 %). Returns true iff the arena is open afterwards.
+  ///
+  /// A capacity below the `allocated` stored in the file (possible after an earlier larger reopen)
+  /// is accepted by the crate and yields an arena with `al > cp`, whose `allocated_memory()` /
+  /// `data()` extend beyond the mapping: such an arena is only looked at (`info`), closed and
+  /// opened again with the whole file.
+  fn reopen_good(&mut self, mode: &str) -> bool {
+    let cap = self.pick_cap();
+    let create = self.rng.chance(30);
+    let ans = self.reopen_line(mode, &cap, None, None, create);
+    if !ans.starts_with("r=ok") {
+      return false;
+    }
+    let f = |k: &str| field(&ans, k).and_then(|v| v.parse::<u64>().ok()).unwrap_or(0);
+    if f("al=") <= f("cp=") {
+      return true;
+    }
+    self.emit("info".to_string());
+    self.emit("close".to_string());
+    self.reopen_line(mode, "none", None, None, false).starts_with("r=ok")
+  }
+
+  /// a few reader operations and refused mutators on a read-only arena (never `rewind`/`dealloc`)
+  fn read_only_ops(&mut self) {
+    for _ in 0..self.rng.range(2, 5) {
+      match self.rng.weighted(&[40, 20, 20, 20]) {
+        0 => self.gen_rd(),
+        1 => drop(self.emit("slices".to_string())),
+        2 => drop(self.emit("info".to_string())),
+        _ => drop(self.emit("checksum crc32".to_string())),
+      }
+    }
+    for _ in 0..self.rng.range(1, 4) {
+      match self.rng.below(10) {
+        0 | 1 => {
+          let h = self.fresh_h();
+          let n = self.rng.pick(&[0, 1, 8, 100]);
+          self.emit(format!("alloc_bytes {h} {n}"));
+        }
+        2 => {
+          let h = self.fresh_h();
+          let (a, s) = self.pick_ty();
+          self.emit(format!("alloc_t_owned {h} {a} {s}"));
+        }
+        3 => {
+          let h = self.fresh_h();
+          let (a, s) = self.pick_ty();
+          self.emit(format!("alloc_aligned {h} {a} {s} 8"));
+        }
+        4 => drop(self.emit("discard_freelist".to_string())),
+        5 => drop(self.emit("clear".to_string())),
+        6 => {
+          let n = self.rng.pick(&[0, 64, 4096, 10000]);
+          self.emit(format!("truncate {n}"));
+        }
+        7 => {
+          let b = self.rng.below(256);
+          self.emit(format!("wres {b}")); // panics: the only expected r=panic
+        }
+        8 => {
+          let n = self.rng.pick(&[0, 8, 48]);
+          self.emit(format!("set_minseg {n}"));
+        }
+        _ => {
+          let n = self.rng.below(9);
+          self.emit(format!("inc_discarded {n}"));
+        }
+      }
+    }
+  }
+
+  /// `close` + (sometimes `filehash`) + `reopen`; after a read-only or a copy-on-write reopen the
+  /// history continues on a further writable (`mut`) reopen. Returns false when the case is over.
+  fn cut(&mut self) -> bool {
+    if self.rng.chance(25) {
+      self.emit("flush".to_string());
+    }
+    // now and then the file is removed at the close and re-created by a `create=1` reopen
+    let remove = self.rng.chance(4);
+    if remove {
+      self.emit("remove_on_drop 1".to_string());
+    }
+    self.close_all();
+    if remove || self.rng.chance(50) {
+      self.emit("filehash".to_string());
+    }
+    if remove {
+      let cap = if self.rng.chance(80) { "same".to_string() } else { self.pick_cap() };
+      let mode = self.rng.pick(&["mut", "mut", "copy", "ro"]);
+      if self.reopen_line(mode, &cap, None, None, true).starts_with("r=ok") {
+        if mode == "mut" {
+          return true;
+        }
+        self.emit("close".to_string());
+      }
+      self.emit("filehash".to_string());
+      // nothing (valid) may be left: the case ends here unless a `mut` open can create the file
+      return self.reopen_line("mut", "same", None, None, true).starts_with("r=ok");
+    }
+    let mode = ["mut", "copy", "ro", "copy_ro"][self.rng.weighted(&[50, 20, 15, 15])];
+    if !self.reopen_good(mode) {
+      return false;
+    }
+    match mode {
+      "mut" => true,
+      "copy" => {
+        // further allocations: they must not reach the file
+        for _ in 0..self.rng.range(1, 3) {
+          self.gen_alloc(false);
+        }
+        if self.rng.chance(30) {
+          self.emit("flush".to_string());
+        }
+        self.close_all();
+        self.emit("filehash".to_string());
+        self.reopen_good("mut")
+      }
+      _ => {
+        self.read_only_ops();
+        self.emit("close".to_string());
+        self.reopen_good("mut")
+      }
+    }
+  }
+
+  fn profile_file(&mut self) {
+    let cuts = self.rng.range(1, 4) as usize;
+    for k in 0..cuts {
+      if self.left == 0 {
+        return;
+      }
+      let n = (self.left / (cuts - k + 1)).max(1);
+      self.run_mix(n, false);
+      if !self.cut() {
+        return;
+      }
+    }
+    let rest = self.left;
+    self.run_mix(rest, false);
+  }
+
+  fn profile_badfile(&mut self) {
+    let c = self.cfg.clone().expect("cfg");
+    let (reserved, prefix, cap) = (c.reserved as u64, c.prefix() as u64, c.cap as u64);
+    // short mix prefix; the tail below has a budget of its own
+    self.left = self.rng.range(2, 12) as usize;
+    self.run_mix(usize::MAX, false);
+    self.left = 64;
+    // the identification bytes as they should be: freelist, "al", magic (LE), version (LE)
+    let version: u64 = field(&self.emit("info".to_string()), "val=")
+      .and_then(|v| v.split(',').nth(9).and_then(|x| x.parse().ok()))
+      .unwrap_or(0);
+    let ident: [u64; 7] = [
+      c.freelist as u64,
+      b'a' as u64,
+      b'l' as u64,
+      c.magic as u64 & 0xFF,
+      c.magic as u64 >> 8,
+      version & 0xFF,
+      version >> 8,
+    ];
+    self.close_all();
+    let (mut magic, mut freelist) = (None, None);
+    match self.rng.weighted(&[34, 22, 10, 12, 12, 10]) {
+      0 => {
+        let k = self.rng.range(1, 7);
+        let rnd = self.rng.below(256);
+        let v = if k == 1 {
+          self.rng.pick(&[0, 1, 2, 3, rnd]) // another (or the same, or no) free-list kind
+        } else if self.rng.chance(20) {
+          ident[k as usize - 1] // the same value: the file stays valid
+        } else {
+          rnd
+        };
+        self.emit(format!("mutate_file {} {v}", reserved + k));
+      }
+      1 => {
+        let n = self.rng.range(0, prefix + 8);
+        self.emit(format!("truncate_file {n}"));
+      }
+      2 => {
+        let rnd = self.rng.range(0, 2 * cap);
+        let n = self.rng.pick(&[0, 1, prefix.saturating_sub(1), prefix, prefix + 8, cap, rnd]);
+        let seed = self.rng.next_u64();
+        self.emit(format!("random_file {seed} {n}"));
+      }
+      3 => {
+        let rnd = self.rng.range(1, 65535) as u16;
+        let d = self.rng.pick(&[1u16, 0x100, 0x8000, rnd]);
+        magic = Some(c.magic.wrapping_add(d));
+      }
+      4 => freelist = Some((c.freelist + self.rng.range(1, 2) as u8) % 3),
+      _ => drop(self.emit("delete_file".to_string())),
+    }
+    self.emit("filehash".to_string());
+    for mode in ["mut", "copy", "ro", "copy_ro"] {
+      let cap = match self.rng.weighted(&[55, 35, 10]) {
+        0 => "same".to_string(),
+        1 => "none".to_string(),
+        _ => (cap + self.rng.range(1, 4096)).to_string(),
+      };
+      let create = self.rng.chance(15);
+      let ok = self.reopen_line(mode, &cap, magic, freelist, create).starts_with("r=ok");
+      self.emit("filehash".to_string());
+      if ok {
+        self.emit("close".to_string());
+      }
+    }
+  }
+
   fn one_case(&mut self) {
     self.begin_case();
     if self.case.is_none() {
@@ -955,6 +1236,8 @@ impl Gen {
       Profile::Readers => self.profile_readers(),
       Profile::Trunc => self.profile_trunc(),
       Profile::Buf => self.profile_buf(),
+      Profile::File => self.profile_file(),
+      Profile::BadFile => self.profile_badfile(),
     }
   }
 }
@@ -983,6 +1266,8 @@ fn gen(args: &[String]) {
           "readers" => Profile::Readers,
           "trunc" => Profile::Trunc,
           "buf" => Profile::Buf,
+          "file" => Profile::File,
+          "badfile" => Profile::BadFile,
           _ => usage(),
         })
       }
@@ -1008,6 +1293,7 @@ fn gen(args: &[String]) {
     next_c: 1,
     left: 0,
     al: 0,
+    cfg: None,
   };
   for _ in 0..cases {
     g.one_case();
@@ -1026,8 +1312,9 @@ fn gen(args: &[String]) {
     .map(|(c, o, m)| format!("{{\"cfg\":{c:?},\"op\":{o:?},\"msg\":{m:?}}}"))
     .collect();
   let pct = |a: u64, b: u64| if b == 0 { 0.0 } else { 100.0 * a as f64 / b as f64 };
+  let reopen = if st.reopen.is_empty() { String::new() } else { format!("\"reopen\":{},", json_map(&st.reopen)) };
   eprintln!(
-    "{{\"profile\":\"{:?}\",\"seed\":{seed},\"cases\":{},\"lines\":{},\"ops\":{},\"results\":{},\"cfg\":{},\"alloc_ok\":{},\"alloc_nonempty\":{},\"alloc_recycled\":{},\"alloc_recycled_pct\":{:.1},\"alloc_boff_ne_off\":{},\"alloc_insufficient\":{},\"panic_count\":{},\"panics\":[{}]}}",
+    "{{\"profile\":\"{:?}\",\"seed\":{seed},\"cases\":{},\"lines\":{},{reopen}\"ops\":{},\"results\":{},\"cfg\":{},\"alloc_ok\":{},\"alloc_nonempty\":{},\"alloc_recycled\":{},\"alloc_recycled_pct\":{:.1},\"alloc_boff_ne_off\":{},\"alloc_insufficient\":{},\"panic_count\":{},\"panics\":[{}]}}",
     profile,
     st.cases,
     st.lines,
